@@ -43,6 +43,16 @@ N = {
 "C19-2": ("C19", "a derived value stored under a key of an Object, then a tree-form write on the container whose path passes THROUGH that key: concrete-type assertion misses, the derived value is replaced by a plain container"),
 "C20": ("C20", "a string value followed by >= 2 filler characters with a newline that is not the first of them (blank line, trailing space, CRLF), then a later error citing a line"),
 "C20-2": ("C20", "the same short invalid literal rejected earlier in the process on a different line: memoised (value, error) replays the first message with its stale line"),
+ "C01-3": ("C01", "an object (at any depth) with a KEY containing '%': the quoted key became part of a Fprintf format string"),
+ "C02-3": ("C02", "a container that came out of the PARSER from a text with a Go-only escape (\\x41, \\a, \\v) or a raw control character in a string value: String() re-emits the kept original literal"),
+ "C03-3": ("C03", "a NEGATIVE integer literal with exactly 19 digits that fits int64 (length check forgot the sign): parsed as float64"),
+ "C04-3": ("C04", "the lone bytes 0x85 / 0xA0 (Latin-1 NEL / NBSP) directly after a whitespace character where the parser skips whitespace: swallowed byte-wise without reaching the UTF-8 guard"),
+ "C05-3": ("C05", "SubList over the whole range (SubList(0,0), SubList(0,n)) returns the receiver itself; visible after a later mutation of either side"),
+ "C06-3": ("C06", "Set of a DISTINCT container that is deep-equal to the one already stored under the key keeps the old reference (Set skips 'unchanged' values)"),
+ "C07-3": ("C07", "lists of >= 512 elements whose length is not a multiple of 256, differing only in the tail remainder (parallel block comparison dispatches full blocks only)"),
+ "C08-3": ("C08", "Clone of a list with >= 512 elements, length not a multiple of 256, holding a nested container in the last partial chunk"),
+ "C09-3": ("C09", "Pluck(keys...) with the keys passed as a spread slice that is not already sorted: the callee sorts the caller's slice in place (argument modified)"),
+ "C10-3": ("C10", "a list index segment of 20+ digits congruent modulo 2^64 to a valid index (hand-written decimal conversion overflows silently)"),
 }
 rows = []
 base = '/verif/seeded'
@@ -53,7 +63,7 @@ for d in sorted(os.listdir(base)):
     m = json.load(open(p))
     prop, need = N.get(d, (d.split('-')[0], m.get('needs_to_manifest', '')))
     m['breaks_property'], m['needs_to_manifest'] = prop, need
-    m['round'] = 2 if d.endswith('-2') else 1
+    m['round'] = 3 if d.endswith('-3') else 2 if d.endswith('-2') else 1
     if d == "C06-merge-empty-receiver":
         m['classification'] = 'not a violation of the statement as we read it; not detected by design'
     json.dump(m, open(p, 'w'), indent=1)
@@ -62,7 +72,8 @@ for d in sorted(os.listdir(base)):
 head = open(f'{base}/README.md').read().split('| id | property |')[0]
 tail = """
 First confrontation (before any strengthening): round 1 - 13 of 20 detected at once, 7 missed; round 2 - 7 of 20
-detected at once, 13 missed (most of them history-dependent). What was strengthened for each miss is described in
+detected at once, 13 missed (most of them history-dependent); round 3 (first ten) - 5 of 10 detected at once, 5 missed
+(size thresholds, byte classes, parser-made containers, argument mutation, integer overflow in a path index). What was strengthened for each miss is described in
 DESIGN.md section 9. `tools/seed_all.sh` re-verifies every entry against the check of its property.
 """
 open(f'{base}/README.md', 'w').write(head + "| id | property | needs to manifest | compiles, tests pass, demo fails with / passes without | detected by (quick tier) |\n|---|---|---|---|---|\n" + "\n".join(rows) + "\n" + tail)
